@@ -616,6 +616,7 @@ def run(tier):
     gen_info = gen_slices.generate(os.path.join(VERIF, 'lean', 'SarpyModel', 'Gen', 'Slices.lean'))
     if gen_info['unsupported']:
         gen_info['note'] = 'translator could not express: ' + json.dumps(gen_info['unsupported'])
+    nitfasm.regenerate(chk)          # Gen/NitfOrient.lean: the NITF reader's orientation tables, from the current source
     broken = chk.prove(['SarpyModel.Props.C01', 'SarpyModel.Props.C01Nd', 'SarpyModel.Props.C01Complete', segmodel.SEG_MODULE, nitfasm.NITF_MODULE, 'SarpyModel.Drivers'], 'SarpyModel.Props.C01Complete', 'Sarpy.Props.C01', REQUIRED, gen_info)
     if not broken:
         segmodel.obligations_reads(chk, broken)      # Props/C01Seg.lean: segment trees as index maps, read = select(full)
